@@ -87,6 +87,18 @@ func alphabet(ids []string) []op {
 		}
 		ops = append(ops, op{kind: "cas-remove", ids: []string{id}})
 	}
+	// one local CAS writing two entries whose tokens collide with each other (an operator tool, a migration)
+	for i := 0; i < len(ids); i++ {
+		for j := i + 1; j < len(ids); j++ {
+			for _, s1 := range []ring.InstanceState{ring.ACTIVE, ring.LEAVING} {
+				for _, s2 := range []ring.InstanceState{ring.ACTIVE, ring.LEAVING} {
+					for _, tt := range [][2][]uint32{{{1}, {1}}, {{0, 1}, {1, M}}, {{M, 1}, {1, 1}}} {
+						ops = append(ops, op{kind: "cas-put", ids: []string{ids[i], ids[j]}, dts: []int64{0, 0}, states: []ring.InstanceState{s1, s2}, tokens: [][]uint32{tt[0], tt[1]}})
+					}
+				}
+			}
+		}
+	}
 	return ops
 }
 
@@ -208,7 +220,9 @@ func (m model) apply(o op, now int64) (model, int) {
 				incoming[id] = e
 			}
 		}
-		incoming[o.ids[0]] = ent{o.states[0], now, norm(o.tokens[0])}
+		for i, id := range o.ids {
+			incoming[id] = ent{o.states[i], now, norm(o.tokens[i])}
+		}
 	case "cas-remove":
 		for id, e := range s {
 			if e.state != ring.LEFT && id != o.ids[0] {
@@ -249,7 +263,9 @@ func applyReal(d *ring.Desc, o op, now int64) error {
 		cl := d.Clone().(*ring.Desc)
 		cl.RemoveTombstones(time.Time{})
 		if o.kind == "cas-put" {
-			cl.Ingesters[o.ids[0]] = ring.InstanceDesc{Id: o.ids[0], Addr: o.ids[0], Zone: zoneOf[o.ids[0]], State: o.states[0], Timestamp: now, Tokens: append([]uint32(nil), o.tokens[0]...), RegisteredTimestamp: 1}
+			for i, id := range o.ids {
+				cl.Ingesters[id] = ring.InstanceDesc{Id: id, Addr: id, Zone: zoneOf[id], State: o.states[i], Timestamp: now, Tokens: append([]uint32(nil), o.tokens[i]...), RegisteredTimestamp: 1}
+			}
 		} else {
 			delete(cl.Ingesters, o.ids[0])
 		}
@@ -402,7 +418,7 @@ func TestC05(t *testing.T) {
 		ids = []string{"a", "b", "c"}
 	}
 	ops := alphabet(ids)
-	rep.Bound = fmt.Sprintf("ids %v, token space {0,1,2^32-1}, %d operations (gossip merges of 1- and 2-entry descriptors in 5 states × 3 timestamps × 10 raw token lists incl. unsorted/duplicated; local-CAS put/remove through Merge(…,true)), BFS depth %d from the empty ring, every state reached by replaying real merges on a fresh descriptor", ids, len(ops), depth)
+	rep.Bound = fmt.Sprintf("ids %v, token space {0,1,2^32-1}, %d operations (gossip merges of 1- and 2-entry descriptors in 5 states × 3 timestamps × 10 raw token lists incl. unsorted/duplicated; local-CAS put of one entry or of two entries colliding with each other / remove through Merge(…,true)), BFS depth %d from the empty ring, every state reached by replaying real merges on a fresh descriptor", ids, len(ops), depth)
 	rep.Rule = "in every reachable state: tokens sorted/unique, LEFT holds none, no token in two non-LEFT entries, real merge result ≡ reference (per-entry LWW + collision rule: non-LEAVING beats LEAVING, else smaller id), and a real ring client fed the state answers Get/ShuffleShard/lookback/token-range/replication-set queries without ErrInconsistentTokensInfo or panic; a long-lived ring client fed a clone of the replica after every merge (as the gossip store feeds its watchers) answers like a client built from the final state alone; distinct_nontrivial = distinct reachable states in whose last step at least one token collision was resolved"
 	deadline := ev.Deadline(10 * time.Minute)
 	enum.Frozen(t, func() {
